@@ -86,6 +86,7 @@ func registerSym() {
 		p.res.choice(name, c)
 		if c == 1 {
 			p.faults++
+			fr.i.counters["faults-fired"]++
 			return true
 		}
 		return false
